@@ -405,7 +405,8 @@ func (idx *KVIndex) FieldTermNumberMax(field string) float64 {
 			_, _, term := TermKeyParse(it.Key())
 			val := GetBytesTerm(term, TermNumber).(float64)
 			log.WithFields(log.Fields{"field": field}).Debugf("KVIndex: FieldTermNumberMax: MaxScan: %f", val)
-			if val > 0 {
+			//zero is larger than any negative term
+			if val >= 0 {
 				min = val
 				return nil
 			}
